@@ -126,7 +126,11 @@ class StepHooks(Hooks):
 
 
 def solver_obj(model, cls, sde, bm, options=None, extra_attrs=None):
-    attrs = {"sde": sde, "bm": bm, "options": options if options is not None else {}}
+    # every slot BaseSDESolver.__init__ sets; the nominal step size `self.dt` is a symbol of its own, distinct from the
+    # length t1 - t0 of the step being taken (a clipped last step or an adaptive trial is shorter than self.dt)
+    attrs = {"sde": sde, "bm": bm, "options": options if options is not None else {},
+             "dt": nf.sym("self.dt", True), "adaptive": False, "rtol": nf.sym("self.rtol", True),
+             "atol": nf.sym("self.atol", True), "dt_min": nf.sym("self.dt_min", True)}
     attrs.update(extra_attrs or {})
     return Obj(f"solver:{cls.name}", cls=cls, attrs=attrs)
 
